@@ -44,7 +44,7 @@ class C13(Check):
             "ordering of which limit bites first occurs, including limits met at the first evaluation. Observers count evaluate/refine calls "
             "and record the result and the stub's own distinct-point count at every evaluation. A state is the refinement structure; "
             "distinct_nontrivial counts distinct structures at the stop of a run")
-    expected_probes = ["error_equals_tolerance_at_stop", "points_equal_minimum_at_stop", "stop_by_tolerance", "stop_by_max", "stop_at_first_evaluation", "min_evaluations_delayed_stop", "zero_reference"]
+    expected_probes = ["continued_with_new_limits", "error_equals_tolerance_at_stop", "points_equal_minimum_at_stop", "stop_by_tolerance", "stop_by_max", "stop_at_first_evaluation", "min_evaluations_delayed_stop", "zero_reference"]
     assumptions = ["the library's documented error norm (mean-normalised p-norm of the component-wise relative deviation) is taken as the definition",
                    "runs that do not stop within the evaluation cap are excluded, not judged (every configuration carries a finite maximum)"]
     excluded_configs = ["reference vectors with some but not all components zero (relative error undefined)",
@@ -79,12 +79,18 @@ class C13(Check):
         mn = r.choice([1, 1, 1, 20, 60, 150])
         mx = r.choice([3, 10, 40, 90, 150, 300])
         lim = {"tol": tol, "min_evaluations": mn, "max_evaluations": mx}
+        ops_extra = []
+        if r.random() < 0.35:
+            # the documented continuation: new limits apply to the continued run
+            lim2 = {"tol": r.choice([0.0, 0.05, 0.3, 1.0, 3.0, 50.0]), "min_evaluations": r.choice([1, 1, 20, 60, 150]),
+                    "max_evaluations": mx + r.choice([0, 5, 30, 100, 200])}
+            ops_extra = [["continue", lim2]]
         if r.random() < 0.4:
             # boundary schedule: limits are set *exactly* onto values the run itself produces (learnt from an exploratory
             # twin with the same environment): tol == E[k], min == N[k] (+1), max == N[k] (-1)
             lim["exact"] = {"k": r.randrange(0, 6), "tol": r.choice(["E[k]", "E[k]", None]), "min": r.choice([None, "N[k]", "N[k]+1"]),
                             "max": r.choice([None, "N[k]", "N[k]-1"])}
-        return {"config": cfg, "ops": [["run", lim]]}
+        return {"config": cfg, "ops": [["run", lim]] + ops_extra}
 
     def simplify(self, s):
         st = s["config"]["strategy"]
@@ -137,6 +143,20 @@ class C13(Check):
         except DS.StopRun:
             raise Excluded("no stop within the evaluation cap")
         ctx.state(sim.structure_key())
+        self.judge(ctx, sim, rec, cfg, lim, res, 0, 1, sig)
+        for op in sched["ops"][1:]:
+            lim2 = op[1]
+            start = sim.n_eval
+            try:
+                res = sim.cont(tol=lim2["tol"], max_evaluations=lim2["max_evaluations"], min_evaluations=lim2["min_evaluations"])
+            except DS.StopRun:
+                raise Excluded("no stop within the evaluation cap")
+            ctx.probe("continued_with_new_limits")
+            ctx.state(sim.structure_key())
+            self.judge(ctx, sim, rec, cfg, lim2, res, start, 2, dict(sig, call="continue"))
+
+    def judge(self, ctx, sim, rec, cfg, lim, res, start, ncalls, sig):
+        """clauses for the driver call that produced evaluations start .. end of the (cumulative) history arrays"""
         tol, mn, mx = lim["tol"], lim["min_evaluations"], lim["max_evaluations"]
         E = [float(x) for x in res[5]]
         N = [int(x) for x in res[6]]
@@ -145,9 +165,9 @@ class C13(Check):
         ctx.ev("stopped", len(E), N, [repr(e) for e in E])
         if not (len(E) == len(N) == len(S) == sim.n_eval):
             ctx.violate("history_array_lengths", sig, "error/points/surplus arrays have %d/%d/%d entries for %d evaluations" % (len(E), len(N), len(S), sim.n_eval))
-        if sim.n_refine != sim.n_eval - 1:
-            ctx.violate("refine_after_stop", sig, "%d refinement steps for %d evaluations" % (sim.n_refine, sim.n_eval))
-        stops = [i for i, (e, n) in enumerate(zip(E, N)) if (e <= tol and n >= mn) or (mx is not None and n > mx)]
+        if sim.n_refine != sim.n_eval - ncalls:
+            ctx.violate("refine_after_stop", sig, "%d refinement steps for %d evaluations in %d driver calls" % (sim.n_refine, sim.n_eval, ncalls))
+        stops = [i for i, (e, n) in enumerate(zip(E, N)) if i >= start and ((e <= tol and n >= mn) or (mx is not None and n > mx))]
         if not stops or stops[0] != len(E) - 1:
             ctx.violate("stop_index", sig, "stop conditions first hold at index %s, the run stopped at index %d; E=%s N=%s tol=%r min=%r max=%r" % (
                 stops[:1], len(E) - 1, E, N, tol, mn, mx))
@@ -157,13 +177,13 @@ class C13(Check):
             ctx.probe("stop_by_tolerance")
         elif mx is not None and last_n > mx:
             ctx.probe("stop_by_max")
-        if len(E) == 1:
+        if len(E) - start == 1:
             ctx.probe("stop_at_first_evaluation")
         if last_e == tol:
             ctx.probe("error_equals_tolerance_at_stop")
         if last_n == mn and last_e <= tol:
             ctx.probe("points_equal_minimum_at_stop")
-        if any(e <= tol and n < mn for e, n in zip(E[:-1], N[:-1])):
+        if any(e <= tol and n < mn for e, n in zip(E[start:-1], N[start:-1])):
             ctx.probe("min_evaluations_delayed_stop")
         if any(n2 < n1 for n1, n2 in zip(N, N[1:])):
             ctx.violate("point_counts_monotone", sig, "point counts decrease: %s" % N)
